@@ -111,7 +111,7 @@ def model_family(rep, tier, seed):
             rep.fail(f"C06/reencode/{kinds}", f"{req['stmts']}: re-encoding the decoded program changes the bytes: {ld.get('reenc')}", replay); continue
         want = mval(cs["result"])
         if resp.get("run", {}).get("r") == "err":
-            rep.fail(f"C06/must-run/run-error/{resp['run'].get('class')}/{kinds}", f"{req['stmts']}: fresh run fails with {resp['run'].get('class')}", replay); continue
+            rep.fail(f"C06/must-run/run-error/{kinds}", f"{req['stmts']}: fresh run fails with {resp['run'].get('class')}", replay); continue
         if val(resp.get("run")) != want:
             rep.fail(f"C06/run-result/{kinds}", f"{req['stmts']}: fresh run gives {resp.get('run')}, interpreter/model {absval.short(want)}", replay); continue
         stepped = mval(cs["stepped"])
@@ -232,7 +232,7 @@ def blackbox_family(rep, tier, seed):
         if run.get("r") == "panic":
             rep.fail(f"C06/run-panics/{fam}", f"{st}: run_program panics: {run.get('msg')}", replay); continue
         if run.get("r") != "ok":
-            if must: rep.fail(f"C06/must-run/run-error/{run.get('class')}/{fam}", f"{st}: fresh run fails with {run.get('class')} for a program of the must-run class", replay)
+            if must: rep.fail(f"C06/must-run/run-error/{fam}", f"{st}: fresh run fails with {run.get('class')} for a program of the must-run class", replay)
             else: tally["run_error(allowed)"] += 1
             continue
         if val(run) != val(resp["interp"]):
